@@ -253,6 +253,18 @@ def fact_laws(repo, res):
         ("handle_conditional", "true branch only", [{}, {(0,): "a"}, {}], ["cond", None, Z], lambda M, c: M[1] if c else Z, (True, False)),
         ("handle_conditional", "false branch only", [{}, {}, {(0,): "a", (2,): "b"}], ["cond", Z, None], lambda M, c: Z if c else M[2], (True, False)),
     ]
+    # a sum of an argument-dependent and an argument-free operand has no factorisation: it must be rejected (forms never get
+    # here thanks to UFL's arity check, expressions such as `u + f` do), not reduced to its argument-dependent half
+    for label, facs, sfs in (("argument term + scalar", [{(0,): "a"}, {}], [None, S]), ("scalar + argument term", [{}, {(0,): "a", (1,): "b"}], [S, None])):
+        h = m.func("handle_sum")
+        key = f"{h.key}:mixed-rank:{label}"
+        res.ob(key)
+        try:
+            got, keys, M = _fact_run(repo, "handle_sum", facs, sfs, None)
+            res.fail(key, f"handle_sum on {label} ({facs}) returns factors for the keys {keys} meaning {_show(got)}: the argument-free summand is silently dropped "
+                     "(compile_expressions([(u + f, pts)]) evaluates u alone); operands of different argument rank must be rejected", m.line(h.node))
+        except Raised:
+            pass
     for hname, label, facs, sfs, expect, conds in cases:
         h = m.func(hname)
         res.functions.add(h.key)
